@@ -303,8 +303,9 @@ func refDecodeQuoted(body string) (string, bool) {
 	return v, true
 }
 
-// refSurrogateOpen: a high surrogate escape followed by another \u escape that
-// is not a low surrogate - whether that is an error or U+FFFD is left open.
+// refSurrogateOpen: a surrogate escape followed by another \u escape with which
+// it does not form a (high, low) pair - whether that is an error or U+FFFD is
+// left open.
 func refSurrogateOpen(body string) bool {
 	for i := 0; i+12 <= len(body); i++ {
 		if body[i] == '\\' && body[i+1] == '\\' {
@@ -329,7 +330,7 @@ func refSurrogateOpen(body string) bool {
 				}
 				lo = lo*16 + h
 			}
-			if ok && hi >= 0xD800 && hi <= 0xDBFF && (lo < 0xDC00 || lo > 0xDFFF) {
+			if ok && hi >= 0xD800 && hi <= 0xDFFF && !(hi <= 0xDBFF && lo >= 0xDC00 && lo <= 0xDFFF) {
 				return true
 			}
 		}
